@@ -255,6 +255,8 @@ fn render_test(w: &mut W, out: &mut Rendered, indent: &str, t: &TestSpec, in_cla
 fn render_fixture(w: &mut W, out: &mut Rendered, f: &FixtureSpec, item_idx: usize) {
     let name = NAMES[f.name].to_string();
     let func_name = match f.alias_fn {
+        // a fixture function may carry the test prefix (it stays a fixture)
+        Some(k) if k >= 3 => format!("test_impl_{}_{}", name, k),
         Some(k) => format!("impl_{}_{}", name, k),
         None => name.clone(),
     };
